@@ -1659,6 +1659,7 @@ class TrajectoryStore:
             nc_files = self._nc[fs_name]
             file_index = 0
             group_index = index
+            species = nc_files.species
 
             # If this is a merged store, find the right file and index into the
             # right group in that file.
@@ -1667,6 +1668,12 @@ class TrajectoryStore:
                 if file_index >= len(nc_files.size_index):
                     return None
                 group_index = index - nc_files.size_index[file_index]
+                # Each constituent file of a merged store has its own species
+                # dimension: values are labelled by the species list of the
+                # file they are read from.
+                species = self._retrieve_nc_species_values(
+                    nc_files.dataset[file_index]
+                )
             group = nc_files.groups[fs_name][file_index]
 
             # Read data from NetCDF variables.
@@ -1680,7 +1687,7 @@ class TrajectoryStore:
                     group_index,
                     name,
                     field,
-                    nc_files.species or [],
+                    species or [],
                 )
                 data[name] = val
                 if Dimension.POINT in field.dimensions and npoints is None:
